@@ -278,7 +278,10 @@ Proof.
   - destruct (sess st s) as [t0|] eqn:Hs; [|reflexivity]. pose proof (i_sess st Hi s t0 Hs) as Ha.
     unfold tm_abort. cbn. rewrite Ha. cbn. unfold upd.
     destruct (Z.eqb_spec t t0); [subst; destruct Ht; congruence|reflexivity].
-  - reflexivity.
+  - (* DropSession: as Rollback *)
+    destruct (sess st s) as [t0|] eqn:Hs; [|reflexivity]. pose proof (i_sess st Hi s t0 Hs) as Ha.
+    unfold tm_abort. cbn. rewrite Ha. cbn. unfold upd.
+    destruct (Z.eqb_spec t t0); [subst; destruct Ht; congruence|reflexivity].
   - destruct (ctx st s) as [e0 t0].
     pose proof (fold_set_prop_frame props (fst (create_node_versioned st labels e0 t0)) (snd (create_node_versioned st labels e0 t0))) as _.
     unfold create_node_with_props. destruct (create_node_versioned st labels e0 t0) as [st1 id] eqn:E. cbn [fst].
@@ -369,11 +372,11 @@ Proof.
   - intros H. unfold read. destruct (ctx st s). rewrite H. reflexivity.
 Qed.
 
-(** operations that are not triple operations or transaction ends leave the committed triples and all
-    buffers alone *)
+(** operations that are not triple operations or transaction ends (commit, rollback, dropping the session)
+    leave the committed triples and all buffers alone *)
 Definition rdf_neutral (o : op) : bool :=
   match o with
-  | InsertTriple _ _ | DeleteTriple _ _ | Commit _ | Rollback _ => false
+  | InsertTriple _ _ | DeleteTriple _ _ | Commit _ | Rollback _ | DropSession _ => false
   | _ => true
   end.
 Lemma rdf_frame_l : forall st o, rdf_neutral o = true ->
@@ -381,7 +384,6 @@ Lemma rdf_frame_l : forall st o, rdf_neutral o = true ->
 Proof.
   intros st o Hn. destruct o; try discriminate; cbn [step].
   - destruct (sess st s); split; reflexivity.
-  - split; reflexivity.
   - destruct (ctx st s) as [e0 t0]. unfold create_node_with_props.
     destruct (create_node_versioned st labels e0 t0) as [st1 id] eqn:E. cbn [fst].
     pose proof (fold_pres (fun s kv => set_node_property s id (fst kv) (snd kv))
